@@ -54,11 +54,24 @@ Proof.
 Qed.
 Print Assumptions C08_cause.
 
-(* a patch whose operations all succeed never returns an error from the loop *)
-Theorem C08_all_succeed : forall o p st,
-  (forall st1 op, In op p -> exists st2, step o st1 op = Ok st2) ->
-  exists st', apply_from o 0 st p = AOk st'.
-Proof. intros. now apply all_succeed. Qed.
+(* a patch whose operations all succeed never returns an error from the loop.
+   An earlier statement of this clause (the lemma ApplyFacts.all_succeed) asked every operation to
+   succeed on EVERY state: a hypothesis the state with the null root refutes for every operation with
+   a non-empty path, so that statement held of almost no patch.  It is replaced by
+   - C08_all_succeed below: the operations succeed on the states THE RUN REACHES (model alone, every
+     option setting, no domain);
+   - C08_done_limit further down: in the domain of the simulation the reference (Rfc6902.rfc_apply)
+     running the patch to the end means Apply returns a document, or the copy-size limit error;
+   - C08_done_no_error after it: with no positive copy-size limit, a document. *)
+Theorem C08_all_succeed : forall o p i st,
+  (forall p1 op p2 st1, p = p1 ++ op :: p2 -> apply_from o i st p1 = AOk st1 -> exists st2, step o st1 op = Ok st2) ->
+  exists st', apply_from o i st p = AOk st'.
+Proof.
+  intros o p. induction p as [|q p IH]; intros i st H; [cbn [apply_from]; eauto|].
+  destruct (H [] q p st eq_refl eq_refl) as [st2 E]. cbn [apply_from]. rewrite E. apply IH.
+  intros p1 op p2 st1 Hp A. apply (H (q :: p1) op p2 st1); [rewrite Hp; reflexivity|].
+  cbn [apply_from]. rewrite E. exact A.
+Qed.
 Print Assumptions C08_all_succeed.
 
 (* ==== the cause/class statements WITH the options (CauseFacts.v) ==== *)
@@ -171,6 +184,20 @@ Theorem C08_done_limit : forall o indent p doc t,
              api_apply o indent p doc = RErr (Some k') (ECopyLimit (o_limit o) total)).
 Proof. exact api_done_limit. Qed.
 Print Assumptions C08_done_limit.
+
+(* hence, with no positive copy-size limit: a patch the reference runs to the end (every operation
+   succeeds on the document the preceding ones produced) returns a document and no error *)
+Theorem C08_done_no_error : forall o indent p doc t,
+  lim_opts o -> (o_limit o <= 0)%Z -> parse doc = Some t -> root_container t = true -> tnodup t = true ->
+  Forall op_dom p -> copies_fit (dia o) (den t) (map den_op p) = true ->
+  forall j, rfc_apply (dia o) (den t) (map den_op p) = Done j ->
+  exists n, api_apply o indent p doc = ROut (output o indent (render (o_esc o) n)) /\ aval n = j /\ ngood n.
+Proof.
+  intros o indent p doc t LO L P RC T D F j R.
+  destruct (api_done_limit o indent p doc t LO P RC T D F j R) as [H | [k' [total [op [H _]]]]]; [exact H|].
+  exfalso. apply (Z.lt_irrefl 0). apply (Z.lt_le_trans _ _ _ H L).
+Qed.
+Print Assumptions C08_done_no_error.
 
 (* the three classes, read off the error of a failing Apply (any limit):
    (a) ErrTestFailed exactly when the first failing operation is a test and the reference fails
@@ -318,3 +345,61 @@ Example C08_nonvacuous :
   | None => False
   end.
 Proof. vm_compute. reflexivity. Qed.
+
+(* ---- the main theorem applied: every hypothesis of C08_cause_limit discharged on the document and patch of
+   C08_limit_nonvacuous, under two copy-size limits, so that BOTH branches of its conclusion occur: the
+   reference fails at operation 2 (remove of an absent member); with limit 12 the copy (12 bytes) passes and
+   Apply reports ErrMissing at 2; with limit 3 Apply is stopped by the limit at the copy, operation 1.
+   And C08_done_no_error on the patch without its failing last operation. ---- *)
+From JP Require PointerDomain.
+Definition C08_ex_doc := B "{""a"":[1],""b"":""xxxxxxxxxx""}".
+Definition C08_ex_patch := B "[{""op"":""test"",""path"":""/a/0"",""value"":1},{""op"":""copy"",""from"":""/b"",""path"":""/c""},{""op"":""remove"",""path"":""/zz""}]".
+Definition C08_ex_patch2 := B "[{""op"":""test"",""path"":""/a/0"",""value"":1},{""op"":""copy"",""from"":""/b"",""path"":""/c""}]".
+Definition C08_ex_t : tjson := match parse C08_ex_doc with Some t => t | None => TNull end.
+Definition C08_ex_p : list operation := match api_decode C08_ex_patch with Some p => p | None => [] end.
+Definition C08_ex_p2 : list operation := match api_decode C08_ex_patch2 with Some p => p | None => [] end.
+Definition C08_ex_o (l : Z) := mkOpts false l false false false [] None.
+
+Example C08_main_theorem_applies :
+  (exists e, api_apply (C08_ex_o 12) [] C08_ex_p C08_ex_doc = RErr (Some 2%nat) e /\ cause_rel FMissingMember e /\
+             e = EMissing /\ is_copy_limit e = false) /\
+  (exists k' total op, (k' < 2)%nat /\ (3 < total)%Z /\ nth_error C08_ex_p k' = Some op /\ op_kind op = KCopy /\
+             api_apply (C08_ex_o 3) [] C08_ex_p C08_ex_doc = RErr (Some k') (ECopyLimit 3 total)) /\
+  (exists n, api_apply (C08_ex_o 0) [] C08_ex_p2 C08_ex_doc = ROut (output (C08_ex_o 0) [] (render false n)) /\
+             aval n = OObj [(B "a", OArr [ONum (B "1")]); (B "b", OStr (B "xxxxxxxxxx")); (B "c", OStr (B "xxxxxxxxxx"))] /\
+             ngood n).
+Proof.
+  assert (P : parse C08_ex_doc = Some C08_ex_t) by (vm_compute; reflexivity).
+  assert (RC : root_container C08_ex_t = true) by reflexivity.
+  assert (T : tnodup C08_ex_t = true) by (vm_compute; reflexivity).
+  assert (D : Forall op_dom C08_ex_p)
+    by (apply (PointerDomain.decoded_in_domain_op_dom C08_ex_patch); vm_compute; reflexivity).
+  assert (D2 : Forall op_dom C08_ex_p2)
+    by (apply (PointerDomain.decoded_in_domain_op_dom C08_ex_patch2); vm_compute; reflexivity).
+  assert (LO : forall l, lim_opts (C08_ex_o l)) by (intro l; split; reflexivity).
+  assert (F : forall l, copies_fit (dia (C08_ex_o l)) (den C08_ex_t) (map den_op C08_ex_p) = true)
+    by (intro l; vm_compute; reflexivity).
+  assert (R : forall l, rfc_apply (dia (C08_ex_o l)) (den C08_ex_t) (map den_op C08_ex_p) = Failed 2 FMissingMember)
+    by (intro l; vm_compute; reflexivity).
+  split; [|split].
+  - destruct (C08_cause_limit (C08_ex_o 12) [] C08_ex_p C08_ex_doc C08_ex_t (LO _) P RC T D (F _) 2%nat FMissingMember (R _))
+      as [[e [H1 [H2 [_ [H4 H5]]]]] | [k' [total [op [_ [_ [_ [_ [_ [_ H]]]]]]]]]].
+    + exists e. split; [exact H1|]. split; [exact H2|]. split; [apply H4; left; reflexivity | exact H5].
+    + exfalso. vm_compute in H. discriminate H.
+  - destruct (C08_cause_limit (C08_ex_o 3) [] C08_ex_p C08_ex_doc C08_ex_t (LO _) P RC T D (F _) 2%nat FMissingMember (R _))
+      as [[e [H1 _]] | [k' [total [op [H1 [H2 [_ [H4 [H5 [H6 H7]]]]]]]]]].
+    + exfalso. vm_compute in H1. discriminate H1.
+    + exists k', total, op. split.
+      * destruct (Nat.eq_dec k' 2) as [E|E]; [apply H2 in E; discriminate E|].
+        apply Nat.le_neq. split; assumption.
+      * split; [exact H4|]. split; [exact H5|]. split; [exact H6 | exact H7].
+  - apply (C08_done_no_error (C08_ex_o 0) [] C08_ex_p2 C08_ex_doc C08_ex_t (LO _)).
+    + vm_compute. discriminate.
+    + exact P.
+    + exact RC.
+    + exact T.
+    + exact D2.
+    + vm_compute; reflexivity.
+    + vm_compute; reflexivity.
+Qed.
+Print Assumptions C08_main_theorem_applies.
